@@ -507,6 +507,13 @@ class _Pre:
                     return _op('add', [n.left, n.right], n)       # type-directed: str + str, else the base `+`
                 return n
 
+            def visit_Compare(self, n):
+                self.generic_visit(n)
+                if len(n.ops) == 1 and isinstance(n.ops[0], (ast.In, ast.NotIn)):
+                    # type-directed: substring test on two strings, else the base membership test
+                    return _op('in' if isinstance(n.ops[0], ast.In) else 'not_in', [n.left, n.comparators[0]], n)
+                return n
+
             def visit_Call(self, n):
                 self.generic_visit(n)
                 mc = _method_call(n)
@@ -529,7 +536,30 @@ class _Pre:
                     if m == 'join' and len(args) == 1 and not isinstance(args[0], ast.Starred):
                         pre.note('join')
                         return _op('join', [recv, args[0]], n)
+                    if m == 'strip' and not args:
+                        pre.note('strip')
+                        return _op('strip', [recv], n)
+                    if m == 'split' and len(args) == 1 and not isinstance(args[0], ast.Starred):
+                        pre.note('split')
+                        return _op('split', [recv, args[0]], n)
                     return n
+                if isinstance(n.func, ast.Name) and not n.keywords and n.func.id in ('list', 'tuple') \
+                        and len(n.args) == 1 and pre._builtin(n.func.id):
+                    inner = n.args[0]
+                    # `map` / `range` objects are lazy: accepted only where `list(...)` / `tuple(...)` exhausts them
+                    if _is_call_of(inner, 'map', 2) and isinstance(inner.args[0], ast.Name) \
+                            and inner.args[0].id == 'int' and pre._builtin('map') and pre._builtin('int'):
+                        pre.note('map-int')
+                        return _op('map_int', [inner.args[1]], n)
+                    if isinstance(inner, ast.Call) and isinstance(inner.func, ast.Name) and inner.func.id == 'range' \
+                            and not inner.keywords and 1 <= len(inner.args) <= 2 and pre._builtin('range') \
+                            and not any(isinstance(a, ast.Starred) for a in inner.args):
+                        pre.note('list-range')
+                        return _op('range', inner.args, n)
+                    return n
+                if isinstance(n.func, ast.Name) and not n.keywords and n.func.id == 'int' and len(n.args) == 1 \
+                        and not isinstance(n.args[0], ast.Starred) and pre._builtin('int'):
+                    return _op('int', [n.args[0]], n)             # type-directed: int(<str>), else the base `int`
                 if isinstance(n.func, ast.Name) and not n.keywords and len(n.args) == 1 \
                         and not isinstance(n.args[0], ast.Starred) and n.func.id in ('min', 'max') \
                         and pre._builtin(n.func.id):
@@ -630,6 +660,52 @@ def translate_op(ex, node, expected):
         if not ex.fn.raises:
             raise Unsupported(node, 'a raising operation outside the raising mode')
         return ex.partial('PyRtC14.%sList? %s' % (name[:3], atom(e)), node), INT
+    if name == 'strip' and len(a) == 1:
+        e, t = ex.expr(a[0])
+        _need([t])
+        if t != STR:
+            raise Unsupported(node, 'strip() of %s' % (t,))
+        return '(PyRtC14.strip %s)' % atom(e), STR
+    if name == 'split' and len(a) == 2:
+        e, t = ex.expr(a[0])
+        _need([t])
+        if t != STR:
+            raise Unsupported(node, 'split() of %s' % (t,))
+        d, _ = ex.expr(a[1], STR)
+        if not ex.fn.raises:
+            raise Unsupported(node, 'a raising operation outside the raising mode')
+        return ex.partial('PyRtC14.split? %s %s' % (atom(e), atom(d)), node), LSTR
+    if name in ('in', 'not_in') and len(a) == 2:
+        ts = _types(ex, a)
+        if ts[1] == STR:
+            x, _ = ex.expr(a[0], STR)
+            y, _ = ex.expr(a[1], STR)
+            r = '(PyRtC14.containsSub %s %s)' % (atom(x), atom(y))
+            return (r if name == 'in' else '(!%s)' % r), BOOL
+        n = ast.copy_location(ast.Compare(left=a[0], ops=[ast.In() if name == 'in' else ast.NotIn()],
+                                          comparators=[a[1]]), node)
+        return 'decide (%s)' % ex.cond(n), BOOL
+    if name == 'map_int' and len(a) == 1:
+        e, t = ex.expr(a[0])
+        _need([t])
+        if t != LSTR:
+            raise Unsupported(node, 'map(int, ...) over %s' % (t,))
+        if not ex.fn.raises:
+            raise Unsupported(node, 'a raising operation outside the raising mode')
+        return ex.partial('PyRtC14.mapInt? %s' % atom(e), node), LINT
+    if name == 'int' and len(a) == 1:
+        ts = _types(ex, a)
+        if ts[0] == STR:
+            e, _ = ex.expr(a[0], STR)
+            if not ex.fn.raises:
+                raise Unsupported(node, 'a raising operation outside the raising mode')
+            return ex.partial('PyRtC14.intOfStr? %s' % atom(e), node), INT
+        n = ast.copy_location(ast.Call(func=_name('int', node), args=[a[0]], keywords=[]), node)
+        return ex._call(n, expected)
+    if name == 'range' and 1 <= len(a) <= 2:
+        lo = '(0 : Int)' if len(a) == 1 else atom(ex.expr(a[0], INT)[0])
+        hi = atom(ex.expr(a[-1], INT)[0])
+        return '(PyRt.range %s %s (1 : Int))' % (lo, hi), LINT
     raise Unsupported(node, 'unknown operation %s/%d' % (name, len(a)))
 
 
@@ -668,6 +744,58 @@ def fam_format_int_list(rng, quick):
         yield dict(int_list=l, delim=d, range_delim=rd, delim_space=rng.random() < 0.3)
 
 
+TOKENS = ['1', '2', '3', '5', '7', '10', '11', '12', '007', '1-3', '5-8', '8-5', '3-3', '10-12', '1-2-3', '', ' ', ' 4', '4 ',
+          '\t6', '6\n', 'x', '1x', '-', '-1', '1-', '+3', '1_0', '1__0', '_1', '1_', ' 2 - 4 ', '2- 4', '\r9', '9\x0b', '\x1c9',
+          '\u0663', '\u0661-\u0663', '1\u00a0', '\u20071', 'é', '1.5', '0x10', '1e3', '--', '1--3', '0', '00', '9-9-9', '\x85 8']
+
+
+def check_tables():
+    """the Unicode tables of PyRtC14.lean (`zeroDigits`, the whitespace sets) against the running interpreter"""
+    import os
+    import re
+    import unicodedata
+    text = open(os.path.join(os.path.dirname(os.path.abspath(__file__)), '..', 'lean', 'BoltonsVerif', 'PyRtC14.lean')).read()
+    m = re.search(r'def zeroDigits : List Nat :=\s*\[([^\]]*)\]', text)
+    table = [int(x) for x in m.group(1).replace('\n', ' ').split(',')]
+    want = [cp for cp in range(0x110000) if chr(cp).isdecimal() and unicodedata.decimal(chr(cp)) == 0]
+    if table != want or not all(unicodedata.decimal(chr(z + i), None) == i for z in want for i in range(10)):
+        raise RuntimeError('PyRtC14.zeroDigits differs from unicodedata %s' % unicodedata.unidata_version)
+    return want, [cp for cp in range(0x110000) if chr(cp).isspace()]
+
+
+def fam_parse_int_list(rng, quick):
+    zeros, spaces = check_tables()
+    for cp in spaces + [8, 14, 27, 33, 0x84, 0x86, 0x180e, 0x200b, 0x2060, 0xfeff]:
+        yield dict(range_string='1,' + chr(cp) + '5' + chr(cp), delim=',', range_delim='-')     # int()'s whitespace
+        yield dict(range_string=chr(cp) + '5,7' + chr(cp), delim=',', range_delim='-')           # strip()'s whitespace
+    for z in zeros:
+        yield dict(range_string='1,' + chr(z + 3) + chr(z) + ',' + chr(z + 10) + ',' + chr(z - 1), delim=',', range_delim='-')
+    yield dict(range_string='1,3,5-8,10-11,15', delim=',', range_delim='-')
+    yield dict(range_string='', delim=',', range_delim='-')
+    yield dict(range_string='1,2', delim='', range_delim='-')
+    yield dict(range_string='1-2', delim=',', range_delim='')
+    yield dict(range_string='', delim='', range_delim='')
+    for t in TOKENS:
+        yield dict(range_string=t, delim=',', range_delim='-')
+        yield dict(range_string=' ' + t + '\n', delim=',', range_delim='-')
+    for _ in range(350 if quick else 4000):
+        r = rng.random()
+        if r < 0.5:
+            d, rd = ',', '-'
+        elif r < 0.8:
+            d, rd = rng.choice([d for d in DELIMS if d]), rng.choice([d for d in DELIMS if d])
+        else:
+            d, rd = rng.choice(DELIMS), rng.choice(DELIMS)
+        toks = [rng.choice(TOKENS).replace('-', rd if rng.random() < 0.9 else '-') for _ in range(rng.randint(0, 5))]
+        if rng.random() < 0.6:
+            toks = [t for t in toks if t in ('1', '2', '3', '5', '7', '10', '11', '12', '1' + rd + '3', '5' + rd + '8', '')]
+        s = (d if rng.random() < 0.9 else ',').join(toks)
+        if rng.random() < 0.2:
+            s = rng.choice([' ', '\n', '\x1f', '\u3000', '\t ']) + s + rng.choice([' ', '\n', '\r\n', '\x1c'])
+        yield dict(range_string=s, delim=d, range_delim=rd)
+
+
 FAMILIES = {
     'format_int_list': fam_format_int_list,
+    'parse_int_list': fam_parse_int_list,
 }
